@@ -150,6 +150,15 @@ func raceBuild(custom bool, yield bool) (*fiber.App, *raceSink) {
 	}
 	app.Get("/r/:id/:a/:b?", h)
 	app.Post("/rb/:id/*", h)
+	// SendFile of an existing or of a missing file, all through one cached file handler
+	dir := fileDir()
+	app.Get("/sf/:id", func(c fiber.Ctx) error {
+		c.Set("X-Answer", c.Get("X-Rid"))
+		pause()
+		err := c.SendFile(dir+"/"+fileNames[c.Query("f", "a")], fiber.SendFile{CacheDuration: -1})
+		pause()
+		return err
+	})
 	app.Get("/fail/:id", func(c fiber.Ctx) error {
 		c.Set("X-Answer", c.Get("X-Rid"))
 		return fiber.NewError(418, "answer "+c.Params("id"))
@@ -166,8 +175,10 @@ func (*nullViews) Render(w io.Writer, _ string, _ any, _ ...string) error {
 }
 
 type raceReq struct {
-	id  string
-	raw []byte
+	id   string
+	raw  []byte
+	want int    // expected status, 0 = not judged
+	kind string // for the signature
 }
 
 func genRaceConn(r *gen.Rand, conn int, n int) []raceReq {
@@ -192,7 +203,14 @@ func genRaceConn(r *gen.Rand, conn int, n int) []raceReq {
 		if r.Chance(1, 6) {
 			qs += "&redir=1"
 		}
-		switch r.PickW(6, 3, 1) {
+		want, kind := 0, ""
+		switch r.PickW(6, 3, 1, 3) {
+		case 3:
+			if r.Bool() {
+				q.Target, want, kind = "/sf/"+id+"?f="+gen.Pick(r, []string{"a", "b", "c"}), 200, "sendfile-existing"
+			} else {
+				q.Target, want, kind = "/sf/"+id+"?f=x", 404, "sendfile-missing"
+			}
 		case 0:
 			q.Target = "/r/" + id + "/a-" + id + r.StringFrom(raceAlpha, r.Range(0, 40))
 			if r.Bool() {
@@ -207,13 +225,14 @@ func genRaceConn(r *gen.Rand, conn int, n int) []raceReq {
 		case 2:
 			q.Target = "/fail/" + id
 		}
-		out = append(out, raceReq{id: id, raw: q.raw()})
+		out = append(out, raceReq{id: id, raw: q.raw(), want: want, kind: kind})
 	}
 	return out
 }
 
 func runRace(e *ev.Env) {
 	e.Note("gomaxprocs", strconv.Itoa(runtime.GOMAXPROCS(0)))
+	defer cleanupFiles()
 	e.Cases("mix", e.N(60, 1200), func(c *ev.Case) {
 		r := c.R
 		custom := r.Chance(1, 3)
@@ -301,6 +320,10 @@ func runRace(e *ev.Env) {
 				continue
 			}
 			for i, rsp := range rs {
+				if ws := conns[k][i].want; ws != 0 && rsp.Status != ws {
+					e.Violation(c, "foreign-status|"+conns[k][i].kind, "the status of a response was decided by another request",
+						map[string]any{"connection": k, "index": i, "want": ws, "got": rsp.Status, "request": string(conns[k][i].raw), "custom_ctx": custom})
+				}
 				want := conns[k][i].id
 				toks := map[string]struct{}{}
 				idTokens(string(rsp.Raw), toks)
